@@ -89,7 +89,8 @@ def r1(cx):
 
 def r2(cx):
     C01.r4.__globals__  # same rule, reported under this property
-    body = cx.mir.one("varlink", LISTEN_WORKER)
+    from .roles import listen_worker
+    body = listen_worker(cx)
     cx.saw(body)
     cfg = Cfg(body); du = DefUse(body)
     hcalls = [t for t in body.calls("=handle") if "ConnectionHandler" in t.callee.path]
@@ -118,7 +119,8 @@ def r2(cx):
 
 
 def r3(cx):
-    roots = [cx.mir.one("varlink", hc.HANDLE), cx.mir.one("varlink", LISTEN_WORKER), cx.mir.one("varlink", "server::Worker::new::{closure#0}")]
+    from .roles import listen_worker, pool_worker
+    roots = [cx.mir.one("varlink", hc.HANDLE), listen_worker(cx), pool_worker(cx)]
     def stop(b):
         return "error.rs" in b.sp or bool(b.mac and "derive" in b.mac)
     bodies = reachable_bodies(cx.mir, roots, pkgs={"varlink"}, stop=stop)
